@@ -6,6 +6,7 @@ import (
 	"context"
 	"encoding/base64"
 	"fmt"
+	"reflect"
 	"sort"
 	"strings"
 	"testing"
@@ -99,6 +100,21 @@ func (prop) Run(t *testing.T, s *sim.Sim, res *runner.Result) {
 				c := c
 				acts = append(acts, sim.Action{Key: "edit claim " + c.Name, Weight: 3, Run: func() { w.EditClaim(wl, c, xrworld.DrawParams{}, s.Tape) }})
 			}
+			// an XR is force-deleted (its claim will create it again under the same name)
+			for _, xr := range w.XRObjects() {
+				xr := xr
+				acts = append(acts, sim.Action{Key: "XR " + xr.GetName() + " is force-deleted", Weight: 1, Run: func() {
+					ctx := context.Background()
+					x := xr.DeepCopy()
+					if w.Direct.Get(ctx, types.NamespacedName{Name: x.GetName()}, x) != nil {
+						return
+					}
+					x.SetFinalizers(nil)
+					if w.Direct.Update(ctx, x) == nil && w.Direct.Delete(ctx, x) == nil {
+						w.S.Probe("xr-force-deleted")
+					}
+				}})
+			}
 			// a stranger takes the name an XR will publish its secret under
 			for _, xr := range w.XRObjects() {
 				ns, _, _ := unstructured.NestedString(xr.Object, "spec", "writeConnectionSecretToRef", "namespace")
@@ -107,6 +123,12 @@ func (prop) Run(t *testing.T, s *sim.Sim, res *runner.Result) {
 				if n == "" || w.Store.Peek(k) != nil {
 					continue
 				}
+				acts = append(acts, sim.Action{Key: "somebody leaves an uncontrolled connection secret at " + n, Weight: 1, Run: func() {
+					sec := secret(ns, n, "connection.crossplane.io/v1alpha1", nil, map[string]string{"leftover": "bGVmdA==", "user": "c29tZW9uZQ=="})
+					if w.Direct.Create(context.Background(), sec) == nil {
+						w.S.Probe("uncontrolled-connection-secret-at-xr-secret-name")
+					}
+				}})
 				acts = append(acts, sim.Action{Key: "stranger creates the secret " + n, Weight: 1, Run: func() {
 					sec := secret(ns, n, "Opaque", map[string]any{"apiVersion": "v1", "kind": "ConfigMap", "name": "stranger", "uid": "stranger-uid", "controller": true}, map[string]string{"theirs": "c2VjcmV0"})
 					if w.Direct.Create(context.Background(), sec) == nil {
@@ -204,8 +226,18 @@ func (st *state) onLog(e *simapi.LogEntry) {
 
 func (st *state) judgeXRSecretWrite(e *simapi.LogEntry, xrName string) {
 	w := st.w
-	xr := w.Store.Peek(simapi.ObjKey{Group: xrworld.XRGVK.Group, Kind: xrworld.XRGVK.Kind, Name: xrName})
-	if xr == nil {
+	cur := w.Store.Peek(simapi.ObjKey{Group: xrworld.XRGVK.Group, Kind: xrworld.XRGVK.Kind, Name: xrName})
+	// the XR as this reconcile last saw it (a read, or the answer to its own
+	// write): the object of that name may have been deleted and created again
+	var xr map[string]any
+	for i := len(w.Store.Log) - 1; i >= 0; i-- {
+		l := w.Store.Log[i]
+		if l.TaskID == e.TaskID && l.Seq < e.Seq && l.Key.Kind == xrworld.XRGVK.Kind && l.Key.Group == xrworld.XRGVK.Group && l.Key.Name == xrName && l.After != nil && l.Err == nil && l.Injected == "" && (l.Read || !l.DryRun) {
+			xr = l.After
+			break
+		}
+	}
+	if xr == nil || cur == nil {
 		return
 	}
 	ns, _, _ := unstructured.NestedString(xr, "spec", "writeConnectionSecretToRef", "namespace")
@@ -222,12 +254,14 @@ func (st *state) judgeXRSecretWrite(e *simapi.LogEntry, xrName string) {
 		return
 	}
 	xrUID := (&unstructured.Unstructured{Object: xr}).GetUID()
-	if c := controllerUID(e.Before); c != "" && c != xrUID {
-		w.S.Violate("C09/xr-wrote-foreign-secret", fmt.Sprintf("reconcile of XR %s wrote secret %s/%s, which another owner controls", xrName, ns, n))
+	// from the right XR: a reconcile working on one incarnation of the XR never
+	// publishes into the secret a later incarnation of the same name controls
+	if curUID := (&unstructured.Unstructured{Object: cur}).GetUID(); curUID != xrUID && e.Changed && controllerUID(e.After) == curUID {
+		w.S.Violate("C09/published-into-secret-of-another-xr-incarnation", fmt.Sprintf("reconcile of XR %s worked on the XR with UID %s but wrote the secret controlled by the XR that now has that name (UID %s)", xrName, xrUID, curUID))
 		return
 	}
-	if !e.Changed && e.Before != nil {
-		w.S.Violate("C09/identical-data-rewritten/xr", fmt.Sprintf("reconcile of XR %s issued %s on its secret with identical content", xrName, e.Verb))
+	if c := controllerUID(e.Before); c != "" && c != xrUID {
+		w.S.Violate("C09/xr-wrote-foreign-secret", fmt.Sprintf("reconcile of XR %s wrote secret %s/%s, which another owner controls", xrName, ns, n))
 		return
 	}
 	// what did the composition produce in this reconcile?
@@ -249,6 +283,22 @@ func (st *state) judgeXRSecretWrite(e *simapi.LogEntry, xrName string) {
 	allowed := map[string]bool{}
 	for _, k := range st.filter {
 		allowed[k] = true
+	}
+	// identical data is never rewritten: the secret already held exactly what
+	// this reconcile wants to publish (a secret that holds other keys as well is
+	// not identical, even though a merge leaves it as it is)
+	if !e.Changed && e.Before != nil {
+		want := map[string]string{}
+		for k, v := range produced {
+			if len(st.filter) == 0 || allowed[k] {
+				want[k] = v
+			}
+		}
+		if reflect.DeepEqual(want, data(e.Before)) {
+			w.S.Violate("C09/identical-data-rewritten/xr", fmt.Sprintf("reconcile of XR %s issued %s on its secret although it already held exactly the data to publish", xrName, e.Verb))
+			return
+		}
+		w.S.Probe("no-op-merge-into-secret-with-other-keys")
 	}
 	after := data(e.After)
 	for _, k := range changedKeys(data(e.Before), after) {
@@ -291,9 +341,18 @@ func (st *state) judgeClaimSecretWrite(e *simapi.LogEntry, ck types.NamespacedNa
 	}
 	// the source: the bound XR's secret, which that XR must control
 	xrName, _, _ := unstructured.NestedString(cm, "spec", "resourceRef", "name")
-	xr := w.Store.Peek(simapi.ObjKey{Group: xrworld.XRGVK.Group, Kind: xrworld.XRGVK.Kind, Name: xrName})
+	// the bound XR as this reconcile read it (the object of that name may have
+	// been deleted and created again since)
+	var xr map[string]any
+	for i := len(w.Store.Log) - 1; i >= 0; i-- {
+		l := w.Store.Log[i]
+		if l.TaskID == e.TaskID && l.Key.Kind == xrworld.XRGVK.Kind && l.Key.Group == xrworld.XRGVK.Group && l.Key.Name == xrName && l.Err == nil && l.Injected == "" && l.After != nil && (l.Read || !l.DryRun) {
+			xr = l.After
+			break
+		}
+	}
 	if xr == nil {
-		w.S.Violate("C09/claim-secret-without-xr", fmt.Sprintf("claim %s's secret was written although its XR %q does not exist", ck, xrName))
+		w.S.Violate("C09/claim-secret-without-xr", fmt.Sprintf("claim %s's secret was written although this reconcile never saw its XR %q", ck, xrName))
 		return
 	}
 	sns, _, _ := unstructured.NestedString(xr, "spec", "writeConnectionSecretToRef", "namespace")
